@@ -350,6 +350,9 @@ var Kinds = map[string][]variant{
 		{text: "x = { set a ( ) { } } ;", known: "C04-SETTER-NO-PARAMETER"},
 		{text: "x = { get b ( ) { } , set 1e2 ( ) { } } ;", known: "C04-SETTER-NO-PARAMETER"},
 		{text: "x = { set a ( b , c ) { } } ;", known: "C04-ACCESSOR-ARITY"},
+		{text: "x = { , : 1 } ;", known: "C04-OBJLIT-ANY-TOKEN-KEY"},
+		{text: "x = { a : 1 , + : 2 } ;", known: "C04-OBJLIT-ANY-TOKEN-KEY"},
+		{text: "x = { ( : 1 } . a ;", known: "C04-OBJLIT-ANY-TOKEN-KEY"},
 		{text: "switch ( a ) {", known: "C04-SWITCH-UNTERMINATED", canon: true, atEnd: true},
 		{text: "switch ( a ) { case 1 : b ;", known: "C04-SWITCH-UNTERMINATED", canon: true, atEnd: true},
 		{text: "function g ( ) { switch ( a ) { default :", known: "C04-SWITCH-UNTERMINATED", canon: true, atEnd: true},
